@@ -106,8 +106,24 @@ func ruleClientRegistrationPairing(c *Ctx, rule string) {
 			if ld, ok := v.(*ssa.UnOp); ok && ld.Op == token.MUL {
 				v = ld.X
 			}
-			if fv, ok := v.(*ssa.FreeVar); ok && fv.Name() == "teardown" {
-				inner = i
+			if fv, ok := v.(*ssa.FreeVar); ok {
+				// the multiplexer's teardown: the func() parameter of client.NewStream captured by the closure
+				isTd := fv.Name() == "teardown"
+				for _, b := range p.freeVarBindings(fv) {
+					if al, isAl := b.(*ssa.Alloc); isAl {
+						for _, st := range p.cellStores(al) {
+							if pr, isP := st.Val.(*ssa.Parameter); isP && pr.Parent() == cns && typeKey(pr.Type()) == "func()" {
+								isTd = true
+							}
+						}
+					}
+					if pr, isP := b.(*ssa.Parameter); isP && pr.Parent() == cns && typeKey(pr.Type()) == "func()" {
+						isTd = true
+					}
+				}
+				if isTd {
+					inner = i
+				}
 			}
 		}
 	})
@@ -670,4 +686,90 @@ func isOptionClosure(f *ssa.Function) bool {
 		return false
 	}
 	return strings.HasSuffix(typeKey(res.At(0).Type()), "Option")
+}
+
+// ruleConsistentLocking (C15.6): static Eraser over every field of the goat-owned structs that is not in a table:
+// if some non-init access to a field happens with a lock in its must-lockset and another non-init access to the same
+// field happens with no lock at all, the locking discipline for that field is inconsistent (the unlocked access can
+// race with the locked ones). Fields whose every access is lock-free are the tables' business (C15.3).
+func ruleConsistentLocking(c *Ctx, rule string) {
+	p := c.p
+	le := p.Locks()
+	tabled := map[string]bool{}
+	for _, g := range p.guardTable() {
+		tabled[g.owner+"."+g.field] = true
+	}
+	for k := range singleOwner {
+		tabled[k] = true
+	}
+	type acc struct {
+		i      ssa.Instruction
+		locks  LockSet
+		write  bool
+		fn     *ssa.Function
+	}
+	fields := map[string][]acc{}
+	for _, f := range p.Funcs {
+		allInstrs(f, func(i ssa.Instruction) {
+			fa, ok := i.(*ssa.FieldAddr)
+			if !ok || isProtoMsg(fa.X.Type()) {
+				return
+			}
+			fk, ok := ownerKey(fa)
+			if !ok || !isScopePath(scopePkgs[strings.SplitN(fk.owner, ".", 2)[0]]) {
+				return
+			}
+			key := fk.String()
+			if tabled[key] || p.isInitPhase(fa) {
+				return
+			}
+			tk := typeKey(fa.Type())
+			if tk == "sync.Mutex" || tk == "sync.WaitGroup" || strings.HasPrefix(tk, "atomic.") || strings.HasPrefix(tk, "struct{") {
+				return
+			}
+			w := false
+			if refs := fa.Referrers(); refs != nil {
+				for _, r := range *refs {
+					if s, ok := r.(*ssa.Store); ok && s.Addr == fa {
+						w = true
+					}
+				}
+			}
+			fields[key] = append(fields[key], acc{i, le.Must(i), w, f})
+		})
+	}
+	n := 0
+	for _, key := range sortedKeys(fields) {
+		as := fields[key]
+		var locked, bare *acc
+		anyWrite := false
+		for k := range as {
+			a := &as[k]
+			if a.write {
+				anyWrite = true
+			}
+			if len(a.locks) > 0 && locked == nil {
+				locked = a
+			}
+			if len(a.locks) == 0 && bare == nil {
+				bare = a
+			}
+		}
+		if !anyWrite || locked == nil {
+			continue // immutable after construction, or never locked: not this rule's business
+		}
+		n++
+		ok := bare == nil
+		detail := fmt.Sprintf("%d accesses, all with a lock held", len(as))
+		var pos []string
+		if !ok {
+			detail = fmt.Sprintf("field is accessed under %s in %s but with no lock in %s: inconsistent locking discipline", locked.locks, p.cname(locked.fn), p.cname(bare.fn))
+			pos = []string{p.ipos(locked.i), p.ipos(bare.i)}
+		}
+		c.check(rule, "consistent-locking:"+key, ok, detail, pos...)
+	}
+	c.inv("fields_examined_for_consistent_locking", len(fields))
+	if n == 0 {
+		c.trivial(rule, "consistent-locking:none", true, "no untabled field is both written after construction and accessed under a lock")
+	}
 }
